@@ -73,6 +73,8 @@ pub(crate) struct Circuit {
     success_count: usize,
     total_count: usize,
     slow_call_count: usize,
+    /// Outcomes (is_failure, is_slow) of the calls currently inside the count-based window.
+    count_window: VecDeque<(bool, bool)>,
     // Time-based window tracking
     call_records: VecDeque<CallRecord>,
 }
@@ -100,7 +102,36 @@ impl Circuit {
             success_count: 0,
             total_count: 0,
             slow_call_count: 0,
+            count_window: VecDeque::new(),
             call_records: VecDeque::new(),
+        }
+    }
+
+    /// Slides the count-based window: while closed, only the last
+    /// `sliding_window_size` calls count towards the failure and slow-call rates.
+    /// (Half-open trial calls are counted against `permitted_calls_in_half_open`.)
+    fn slide_count_window<C>(
+        &mut self,
+        config: &CircuitBreakerConfig<C>,
+        is_failure: bool,
+        is_slow: bool,
+    ) {
+        if self.state != CircuitState::Closed {
+            return;
+        }
+        self.count_window.push_back((is_failure, is_slow));
+        while self.count_window.len() > config.sliding_window_size.max(1) {
+            if let Some((old_failure, old_slow)) = self.count_window.pop_front() {
+                self.total_count -= 1;
+                if old_failure {
+                    self.failure_count -= 1;
+                } else {
+                    self.success_count -= 1;
+                }
+                if old_slow {
+                    self.slow_call_count -= 1;
+                }
+            }
         }
     }
 
@@ -200,6 +231,7 @@ impl Circuit {
                 if is_slow {
                     self.slow_call_count += 1;
                 }
+                self.slide_count_window(config, false, is_slow);
             }
             SlidingWindowType::TimeBased => {
                 if let Some(window_duration) = config.sliding_window_duration {
@@ -279,6 +311,7 @@ impl Circuit {
                 if is_slow {
                     self.slow_call_count += 1;
                 }
+                self.slide_count_window(config, true, is_slow);
             }
             SlidingWindowType::TimeBased => {
                 if let Some(window_duration) = config.sliding_window_duration {
@@ -407,6 +440,7 @@ impl Circuit {
             self.failure_count = 0;
             self.total_count = 0;
             self.slow_call_count = 0;
+            self.count_window.clear();
             self.call_records.clear();
             return;
         }
@@ -466,6 +500,7 @@ impl Circuit {
         self.failure_count = 0;
         self.total_count = 0;
         self.slow_call_count = 0;
+        self.count_window.clear();
         self.call_records.clear();
     }
 
